@@ -357,6 +357,9 @@ def Enc.setMaxSize (e : Enc) (v : Nat) : Enc :=
 
 def Enc.setMaxSizeLimit (e : Enc) (v : Nat) : Enc :=
   let e := { e with maxSizeLimit := v }
-  if e.tab.maxSize > v then { e with tableSizeUpdate := true, tab := e.tab.setMaxSize v } else e
+  -- (with the D21 repair: a shrink through the limit is remembered as the interval's minimum, like one through setMaxSize)
+  if e.tab.maxSize > v then
+    { e with minSize := if v < e.minSize then v else e.minSize, tableSizeUpdate := true, tab := e.tab.setMaxSize v }
+  else e
 
 end Fp.Hpack
